@@ -34,6 +34,27 @@ func main() {
 			}
 			fn.WriteTo(os.Stdout)
 		}
+	case "verify":
+		initWorkDir()
+		rc := cmdVerify(os.Args[2:])
+		cleanupWorkDir()
+		os.Exit(rc)
+	case "globals":
+		P, err := loadProgram("verif")
+		if err != nil {
+			fmt.Fprintln(os.Stderr, err)
+			os.Exit(2)
+		}
+		gi := buildGlobalIndex(P)
+		for g, info := range gi.info {
+			for _, a := range os.Args[2:] {
+				if strings.Contains(g.Name(), a) {
+					fmt.Printf("%s.%s readOnly=%v ambiguous=%v scalar=%v table=%d ptrElems=%d\n", pkgShort(g.Pkg.Pkg), g.Name(), info.readOnly, info.ambiguous, info.scalar, len(info.table), len(info.ptrElems))
+				}
+			}
+		}
+	case "loops":
+		os.Exit(cmdLoops(os.Args[2:]))
 	default:
 		fmt.Fprintln(os.Stderr, "unknown command")
 		os.Exit(2)
